@@ -719,7 +719,11 @@ class Interp:
                 self.raise_("IndexError", "index out of range")
             return l.elems[i]
         if i < 0:
-            raise Unsupported("negative index on symbolic-length list")
+            for k in range(n, -1, -1):
+                if k == 0 or self.ctx.decide(l.sym_n == k):
+                    if k + i < 0:
+                        self.raise_("IndexError", "index out of range")
+                    return l.elems[k + i]
         if i >= n or not self.ctx.decide(l.sym_n > i):
             self.raise_("IndexError", "index out of range")
         return l.elems[i]
@@ -735,6 +739,18 @@ class Interp:
                     return
             yield l.elems[i]
             i += 1
+
+    def concretize_len(self, l):
+        """fork on the length of a symbolic-length list and make it concrete"""
+        if l.sym_n is None:
+            return
+        n = len(l.elems)
+        for i in range(len(l.elems)):
+            if self.ctx.decide(l.sym_n == i):
+                n = i
+                break
+        l.elems = l.elems[:n]
+        l.sym_n = None
 
     def list_copy(self, l, frozen):
         return PList(self, l.elems, l.sym_n, frozen)
@@ -971,15 +987,7 @@ class Interp:
                 I.raise_("AttributeError", f"'tuple' object has no attribute '{name}'")
 
         def concrete(what):
-            if l.sym_n is not None:
-                # make the length concrete by forking on it
-                n = None
-                for i in range(len(l.elems) + 1):
-                    if i == len(l.elems) or I.ctx.decide(l.sym_n == i):
-                        n = i
-                        break
-                l.elems = l.elems[:n]
-                l.sym_n = None
+            I.concretize_len(l)
         if name == "append":
             guard()
             return NativeFunc(lambda it, a, k: I.list_append(l, a[0]), "list.append")
@@ -1415,13 +1423,12 @@ class Interp:
         # symbolic length: only l[:k] = [k values] with k <= len on this path
         if lo in (None, 0) and isinstance(hi, int) and hi >= 0:
             # effective slice is [:min(hi, n)]
-            if hi <= len(c.elems) and self.ctx.decide(c.sym_n >= hi):
-                if len(new) == hi:
-                    for i, x in enumerate(new):
-                        c.elems[i] = x
-                    return
-            raise Unsupported("slice assignment changing a symbolic length")
-        raise Unsupported("slice assignment on symbolic-length list")
+            if hi <= len(c.elems) and len(new) == hi and self.ctx.decide(c.sym_n >= hi):
+                for i, x in enumerate(new):
+                    c.elems[i] = x
+                return
+        self.concretize_len(c)
+        c.elems[lo:hi] = new
 
     def setitem(self, c, k, v):
         c = self.resolve(c)
@@ -2004,7 +2011,10 @@ class Interp:
                     return self.wraps(z3.SubString(c.term, 0, z3.If(n + hi >= 0, n + hi, 0)))
                 raise Unsupported("SStr slice form")
             c = self.resolve(c)
-            if isinstance(c, PList) and c.sym_n is None:
+            if isinstance(c, PList):
+                if c.sym_n is not None:
+                    c = self.list_copy(c, c.frozen)
+                    self.concretize_len(c)
                 return PList(self, c.elems[lo:hi], frozen=c.frozen)
             raise Unsupported("slice")
         return self.getitem(c, self.eval(e.slice, fr))
